@@ -497,8 +497,6 @@ common::register! {
     q_sdes_chunk = sdes_chunk::<_, 16> => 2,
     q_sdes = sdes::<_, 16> => 2,
     q_app_name_string = app_name_string => 2,
-    t_bye_reason_string = bye_reason_string => 2,
-    t_item_value_string = item_value_string => 2,
     t_app = app::<_, 256> => 2,
     t_bye = bye::<_, 256> => 2,
     t_rr = rr::<_, 256> => 2,
